@@ -25,6 +25,7 @@ import (
 	"golang.org/x/sys/unix"
 
 	"github.com/restic/restic/internal/data"
+	"github.com/restic/restic/internal/fs"
 	"github.com/restic/restic/internal/restic"
 )
 
@@ -34,6 +35,30 @@ var _ = verifRegister("C01", engineC01)
 // the model uses it through ParamsC01, the snapshot listing shows the implementation's result)
 var _ = verifParam("C01", "mode_mask", func() int64 {
 	return int64(os.ModePerm | os.ModeType | os.ModeSetuid | os.ModeSetgid | os.ModeSticky)
+})
+
+// whether the node of a fifo records its link count (fs.nodeFillExtendedStat): 1 = yes, 0 = no.
+// Observed on a fresh fifo with one link through the real node construction.
+var _ = verifParam("C01", "fifo_links_recorded", func() int64 {
+	dir, err := os.MkdirTemp("", "verif-c01-")
+	if err != nil {
+		return -1
+	}
+	defer os.RemoveAll(dir)
+	p := filepath.Join(dir, "fifo")
+	if syscall.Mkfifo(p, 0o600) != nil {
+		return -1
+	}
+	f, err := fs.NewLocal().OpenFile(p, fs.O_NOFOLLOW, true)
+	if err != nil {
+		return -1
+	}
+	defer f.Close()
+	node, err := f.ToNode(false, func(string, ...any) {})
+	if err != nil || node == nil {
+		return -1
+	}
+	return int64(node.Links)
 })
 
 type c01Ent struct {
@@ -472,7 +497,7 @@ func c01Scenario(c *vctx, rng *vrng, idx int, caps c01Caps, special string) erro
 	g := &c01Gen{rng: rng, caps: caps, big: idx%4 == 1 && special == ""}
 	budget := 6 + rng.intn(22)
 	if speciallink {
-		// F-C01-1: hard links between symlinks (legal on Linux) are restored as independent symlinks
+		// regression for F-C01-1 (repaired): hard links between symlinks and between device nodes
 		a, b := filepath.Join(src, "link-a"), filepath.Join(src, "link-b")
 		if err := os.Symlink("some/target", a); err != nil {
 			return err
@@ -484,8 +509,30 @@ func c01Scenario(c *vctx, rng *vrng, idx int, caps c01Caps, special string) erro
 			return err
 		}
 		g.all = append(g.all, a, b, filepath.Join(src, "file"))
+		if caps.dev {
+			d1, d2 := filepath.Join(src, "dev-a"), filepath.Join(src, "sub")
+			if err := syscall.Mknod(d1, syscall.S_IFCHR|0o600, int(unix.Mkdev(1, 3))); err != nil {
+				return err
+			}
+			if err := os.Mkdir(d2, 0o755); err != nil {
+				return err
+			}
+			if err := os.Link(d1, filepath.Join(d2, "dev-b")); err != nil {
+				return err
+			}
+			g.all = append(g.all, d1, d2, filepath.Join(d2, "dev-b"))
+		}
+	} else if special == "hardlinked-fifo" {
+		a, b := filepath.Join(src, "fifo-a"), filepath.Join(src, "fifo-b")
+		if err := syscall.Mkfifo(a, 0o644); err != nil {
+			return err
+		}
+		if err := os.Link(a, b); err != nil {
+			return err
+		}
+		g.all = append(g.all, a, b)
 	} else if special == "mtime-after-2262" {
-		// F-C01-2: time.Time.UnixNano overflows for such times when the restorer sets them
+		// regression for F-C01-2 (repaired): time.Time.UnixNano overflows for such times
 		f := filepath.Join(src, "far-future")
 		if err := os.WriteFile(f, []byte("y"), 0o644); err != nil {
 			return err
@@ -609,7 +656,7 @@ func engineC01(c *vctx) error {
 	caps := c01Probe(c.dir)
 	c.Info("xattr_supported", caps.xattr)
 	c.Info("device_nodes_supported", caps.dev)
-	for i, sp := range []string{"hardlinked-symlink", "mtime-after-2262"} {
+	for i, sp := range []string{"hardlinked-symlink", "mtime-after-2262", "hardlinked-fifo"} {
 		if err := c01Scenario(c, c.rng.fork(), 1000+i, caps, sp); err != nil {
 			return err
 		}
